@@ -15,6 +15,7 @@ def run(ctx: common.Ctx):
     doc_checks.run_c06_payee_grid(ctx)
     doc_checks.run_c06_whole_field(ctx)
     doc_checks.run_c06_stale_views(ctx)
+    doc_checks.run_c06_glued_removals(ctx)
     tree_check.correspondence(ctx, 'C06')
 
 
@@ -23,6 +24,7 @@ def search(ctx: common.Ctx):
     doc_checks.run_c06_payee_grid(ctx)
     doc_checks.run_c06_whole_field(ctx)
     doc_checks.run_c06_stale_views(ctx)
+    doc_checks.run_c06_glued_removals(ctx)
 
 
 def replay(ctx, path):
